@@ -118,6 +118,9 @@ fn struct_source(s: &StructDef) -> String {
     o
 }
 
+/// value counts from here on are emitted as lazy exact-size iterators instead of literal lists
+const LAZY: usize = 1 << 40;
+
 #[derive(Clone, Debug)]
 enum Op {
     MaxAll(usize),
@@ -217,6 +220,10 @@ fn chain_source(s: &StructDef, ops: &[Op], unwrap: &str) -> String {
             }
             Op::MaxOne(i, n) => {
                 let _ = write!(o, ".with_{}_max_size({n})", s.stacks[*i].method);
+            }
+            Op::Values(i, k) if *k >= LAZY => {
+                // a lazily produced, astronomically long exact-size value list
+                let _ = write!(o, ".with_{}_values((0..{k}usize).map(|_| {})){unwrap}", s.stacks[*i].method, (TYPES[s.stacks[*i].ty].lit)(1));
             }
             Op::Values(i, k) => {
                 let vals: Vec<String> = (0..*k)
@@ -362,7 +369,9 @@ fn gen_legal_chain(rng: &mut Rng, s: &StructDef) -> Vec<Op> {
             }
             3..=6 => {
                 let i = rng.below(n);
-                ops.push(Op::Values(i, rng.below(5)));
+                // occasionally an astronomically long lazy list (also as a second load onto a non-empty stack)
+                let cnt = if rng.chance(1, 12) { [usize::MAX, usize::MAX - 1, LAZY, usize::MAX - 3][rng.below(4)] } else { rng.below(5) };
+                ops.push(Op::Values(i, cnt));
                 has_data[i] = true;
             }
             7 if !program => {
@@ -413,6 +422,13 @@ fn predict(s: &StructDef, ops: &[Op]) -> Expect {
                 e.stacks.iter_mut().for_each(|st| st.0 = *m);
             }
             Op::MaxOne(i, m) => e.stacks[*i].0 = *m,
+            Op::Values(i, cnt) if *cnt >= LAZY => {
+                // maxima in legal chains are below 8, so this can only be an overflow (also when the
+                // count added to what is already there does not fit in a usize)
+                let _ = i;
+                e.overflow_at = Some(k);
+                return e;
+            }
             Op::Values(i, cnt) => {
                 let vals: Vec<String> = (0..*cnt)
                     .map(|_| {
@@ -468,7 +484,7 @@ fn verif_dir() -> String {
 pub fn run(ctx: &mut Ctx) {
     let (k_structs, m_legal, n_probe) = ctx.tier.pick((6usize, 40usize, 260usize), (30, 150, 2500));
     let mut rng = Rng(splitmix(ctx.seed ^ 0xC19));
-    ctx.rule = format!("seeded source generation: PushState plus {k_structs} generated #[push_state(builder)] structs (1..5 stacks, generated field names with and without builder_name, distinct element types from {{i64, bool, u8, u32, char, String, OrderedFloat<f64>, (u8,u8)}}), each emitted with and without !has_stack. (B) {n_probe} generated builder call chains, one per line, classified by a model of the type-state automaton as must-compile / must-not-compile (build without sizes, program decision or step limit; resizing a stack, individually or globally, after values were loaded) / unspecified, decided by cargo check diagnostics per line; the struct definitions themselves are must-compile lines. (A) {m_legal} generated legal chains per struct executed and compared with the model: per stack the values top-first, the maximum last set (global vs individual in either order), Err(Overflow) exactly when a value list or program exceeds the maximum, stack::<T>() addressing the field declared for T; for PushState additionally first program element executes first and inputs resolve for every declaration order. non-trivial = a chain with >= 4 calls touching >= 2 stacks, or any must-not-compile chain; distinct by source text");
+    ctx.rule = format!("seeded source generation: PushState plus {k_structs} generated #[push_state(builder)] structs (1..5 stacks, generated field names with and without builder_name, distinct element types from {{i64, bool, u8, u32, char, String, OrderedFloat<f64>, (u8,u8)}}), each emitted with and without !has_stack. (B) {n_probe} generated builder call chains, one per line, classified by a model of the type-state automaton as must-compile / must-not-compile (build without sizes, program decision or step limit; resizing a stack, individually or globally, after values were loaded) / unspecified, decided by cargo check diagnostics per line; the struct definitions themselves are must-compile lines. (A) {m_legal} generated legal chains per struct executed and compared with the model: per stack the values top-first, the maximum last set (global vs individual in either order), Err(Overflow) exactly when a value list or program exceeds the maximum (including lazily produced lists of up to usize::MAX elements), stack::<T>() addressing the field declared for T; for PushState additionally first program element executes first and inputs resolve for every declaration order. non-trivial = a chain with >= 4 calls touching >= 2 stacks, or any must-not-compile chain; distinct by source text");
     ctx.assumptions.push("chains the statement does not decide (values before any size, a second program decision, the step limit twice, calls after build) are generated and counted but not judged; field names are drawn so that their PascalCase forms are distinct".into());
 
     // ---- structs
